@@ -6,7 +6,7 @@ import Driver.Util
     something else (possible only for the pre-fix TRK reader / header count 0).
 
     ops
-    * `vol <hdrSize> <sniffLen> <exts 0|1> <fixedOff _|n> <footerSize> <member single|hdr|img>
+    * `vol <hdrSize> <sniffLen> <exts 0|1> <fixedOff _|n> <footerSize> <member single|hdr|img|cifti>
            <extender0> <payload lens a,b|-> <padLen> <dataLen> <footerLen> <mmap 0|1> <comp 0|1>
            <tail _|a> <k> <m> <strict 0|1>`   (`tail a`: partial read `dataobj[..., -1]` = data bytes from `a`;
       `s:<isz>:<shape>:<idx>`: partial read `dataobj[idx]`, idx items `i<k>` / `s<a>,<b>,<c>` (`_` = None) joined by `;`)
@@ -109,6 +109,12 @@ def handle : List String → String
               | .tail a => readTailSingle fmt s a
               | .slice isz shape idx => readSliceSingle fmt s idx shape isz
             outcome (load k r) (want file (singleOff fmt img)) ++ " " ++ toString file.length
+          else if member = "cifti" then
+            -- CIFTI-2: NIfTI-2 single file + XML (first extension) through the expat contract
+            let file := writeSingle fmt img
+            let s : Src := ⟨file.take m, st⟩
+            let xmlLen := match pl with | n :: _ => n | [] => 0
+            outcome (load k (ciftiRead fmt um xmlLen s)) img.data ++ " " ++ toString file.length
           else if member = "hdr" then
             let file := writeHdrFile fmt img
             let hs : Src := ⟨file.take m, st⟩
